@@ -108,6 +108,7 @@ CHECKS = {
 }
 
 NOT_YET = {}
+FUZZED = {"C01", "C02", "C03", "C04", "C05", "C08", "C10", "C11", "C13", "C17"}
 
 def main():
     props = [json.loads(l) for l in open("/verif/properties.jsonl")]
@@ -117,6 +118,8 @@ def main():
         pid = p["id"]
         if pid in CHECKS:
             tech, text, note, ref = CHECKS[pid]
+            if pid in FUZZED:
+                tech += "; thorough tier adds coverage-guided fuzzing (atheris/libFuzzer driving the same oracle through hypothesis.fuzz_one_input)"
             checks.append({
                 "property_id": pid,
                 "quick_cmd": "%s %s --tier quick" % (PY, pid),
